@@ -1,15 +1,9 @@
-(* C13 - P_pdffit and P_discus raise only the documented errors, for every list of lines. *)
+(* C13 - P_pdffit raises only the documented errors, for every list of lines. *)
 From Coq Require Import List Bool Arith ZArith Lia.
-From DS Require Import Base.C13_Exn Gen.C13_ExcSpec Model.C13_Common Model.C13_Pdffit Model.C13_Discus
-                       Proofs.C13_ExnLemmas Proofs.C13_Xyz.
+From DS Require Import Base.C13_Exn Gen.C13_ExcSpec Model.C13_Common Model.C13_Pdffit
+                       Proofs.C13_ExnLemmas Proofs.C13_Shared.
 From Coq Require Import Ascii String.
 Import ListNotations.
-
-Lemma within_next_line : forall ks rest, In StopIteration ks -> within ks (next_line rest).
-Proof. intros ks [| l r] H; simpl; auto. Qed.
-
-Lemma within_str_head : forall ks s, In IndexError ks -> within ks (str_head s).
-Proof. intros ks [| c s] H; simpl; auto. Qed.
 
 Section PDFFIT_proofs.
   Variable V : Type.
@@ -101,95 +95,3 @@ Section PDFFIT_proofs.
   Qed.
 End PDFFIT_proofs.
 
-Section DISCUS_proofs.
-  Variable V : Type.
-  Variable split : string -> list string.
-  Variable split_commas : string -> list string.
-  Variable isblank : string -> bool.
-  Variable float_of : string -> res V.
-  Variable int_of : string -> res Z.
-  Variable set_lat_par : list (list V) -> list V -> res unit.
-  Variable cell_pars : list (list V) -> list V.
-  Variable lattice_of : list V -> res unit.
-  Variable mulZ : V -> Z -> res V.
-
-  Hypothesis float_kinds : forall s, within [ValueError] (float_of s).
-  Hypothesis int_kinds : forall s, within [ValueError] (int_of s).
-  Hypothesis set_lat_par_kinds : forall h l, within [ValueError; ZeroDivisionError] (set_lat_par h l).
-  Hypothesis lattice_kinds : forall l, within [ValueError; ZeroDivisionError] (lattice_of l).
-  Hypothesis mulZ_kinds : forall v z, within [OverflowError] (mulZ v z).
-
-  Definition discus_ks : list kind := [IndexError; ValueError; ZeroDivisionError; OverflowError; FormatError; NotImplemented].
-
-  Ltac oracle :=
-    first [ eapply within_weaken_b; [| apply float_kinds]; reflexivity
-          | eapply within_weaken_b; [| apply int_kinds]; reflexivity
-          | eapply within_weaken_b; [| apply lattice_kinds]; reflexivity
-          | eapply within_weaken_b; [| apply mulZ_kinds]; reflexivity
-          | apply within_str_head; simpl; tauto
-          | apply within_mapM; intros ? ? ].
-
-  Ltac wauto := repeat first [ wstep | oracle ].
-
-  Lemma d_cell_within : forall st line, within discus_ks (discus_cell V split_commas float_of set_lat_par st line).
-  Proof.
-    intros; unfold discus_cell.
-    apply within_bind; [unfold discus_ks; oracle; oracle | intros pars _].
-    apply within_bind; [| intros; exact I].
-    eapply within_try; [apply set_lat_par_kinds | vm_compute; reflexivity | intros k; vm_compute; tauto].
-  Qed.
-
-  Lemma d_shape_within : forall words line, within discus_ks (discus_shape V split_commas float_of words line).
-  Proof. intros; unfold discus_shape, discus_ks, Model.C13_Discus.kw. wauto. Qed.
-
-  Lemma d_record_within : forall st w0 words line,
-    within discus_ks (discus_record V split_commas float_of int_of set_lat_par st w0 words line).
-  Proof.
-    intros; unfold discus_record.
-    repeat match goal with
-    | |- within _ (if ?b then _ else _) => destruct b eqn:?
-    end;
-    try exact I;
-    try apply d_cell_within;
-    try (apply within_bind; [apply d_shape_within | intros; exact I]);
-    unfold discus_ks; wauto.
-  Qed.
-
-  Lemma d_header_within : forall rest st,
-    within discus_ks (discus_header V split split_commas float_of int_of set_lat_par st rest).
-  Proof.
-    induction rest as [| line rest IH]; intros st; simpl; [exact I |].
-    destruct (split line) as [| w0 ws]; [apply IH |].
-    apply within_bind; [apply within_str_head; simpl; tauto | intros c _].
-    destruct (Ascii.eqb c hash_char); [apply IH |].
-    destruct (Model.C13_Discus.kw w0 "atoms"); [exact I |].
-    apply within_bind; [apply d_record_within | intros; apply IH].
-  Qed.
-
-  Lemma d_atom_line_within : forall st line, within discus_ks (discus_atom_line V split_commas float_of st line).
-  Proof. intros; unfold discus_atom_line, discus_atom, discus_ks. wauto. Qed.
-
-  Lemma d_scaled_within : forall pars nc i, within discus_ks (Model.C13_Discus.scaled_edge V mulZ pars nc i).
-  Proof. intros; unfold Model.C13_Discus.scaled_edge, discus_ks. wauto. Qed.
-
-  Lemma d_body_within : forall lines,
-    within discus_ks (discus_body V split split_commas isblank float_of int_of set_lat_par cell_pars lattice_of mulZ lines).
-  Proof.
-    intros; unfold discus_body.
-    apply within_bind; [apply trim_blank_within; simpl; tauto | intros stop _].
-    apply within_bind; [apply d_header_within | intros hs _].
-    destruct (negb (d_cell_read V (fst hs))); [simpl; tauto |].
-    apply within_bind; [apply within_foldM; intros; apply d_atom_line_within | intros st _].
-    match goal with |- within _ (if ?b then _ else _) => destruct b end; [simpl; tauto |].
-    match goal with |- within _ (if ?b then _ else _) => destruct b end; [| exact I].
-    repeat (apply within_bind; [first [apply d_scaled_within | unfold discus_ks; oracle] | intros ? _]).
-    exact I.
-  Qed.
-
-  Theorem only_documented_discus : forall lines,
-    documented (parse_discus V split split_commas isblank float_of int_of set_lat_par cell_pars lattice_of mulZ lines).
-  Proof.
-    intros lines. apply within_documented. unfold parse_discus, parse_discus_gen.
-    eapply within_try; [apply d_body_within | vm_compute; reflexivity | intros k; vm_compute; tauto].
-  Qed.
-End DISCUS_proofs.
